@@ -1564,9 +1564,19 @@ func (db *DB) RequestWithContext(ctx context.Context, req *command.Request, xTim
 	// abortOnError indicates whether the caller should continue
 	// processing or break.
 	abortOnError := func(err error) bool {
-		if err != nil && tx != nil {
+		if err == nil {
+			return false
+		}
+		if tx != nil {
 			tx.Rollback()
 			tx = nil
+			return true
+		}
+		if req.RollbackOnError {
+			// Same handling as the execute path: roll back any transaction the request
+			// opened itself, and stop processing.
+			db.executeStmtWithConn(context.Background(), &command.Statement{Sql: "ROLLBACK"}, false, eq,
+				time.Duration(req.DbTimeout))
 			return true
 		}
 		return false
@@ -1586,6 +1596,9 @@ func (db *DB) RequestWithContext(ctx context.Context, req *command.Request, xTim
 					Error: err.Error(),
 				},
 			})
+			if abortOnError(err) {
+				break
+			}
 			continue
 		}
 
